@@ -55,6 +55,14 @@ def corpus(tier):
         c.append(("gensalt_st-first/" + (m or "NULL"), [],
                   rt.gensalt_line("st", gen.TAG[m] if m else None, 0, facts.rbytes_pattern("rnd", 32), 32, 192), True))
     c.append(("static-first/y-small", [], rt.crypt_line("crypt", 0, ph, y_setting(b"$y$", 8, 8)), True))
+    if tier == "thorough":
+        big += [("y-worm", y_setting(b"$y$", 8, 8)[:3] + b"/" + y_setting(b"$y$", 8, 8)[4:]),      # flavour '/'
+                ("y-classic", y_setting(b"$y$", 8, 8)[:3] + b"." + y_setting(b"$y$", 8, 8)[4:]),   # flavour '.'
+                ("y-p2", b"$y$j75.0$saltSALTsaltSALT"),                                          # p = 2
+                ("y-t1", b"$y$j75/.$saltSALTsaltSALT"),                                          # t = 1
+                ("gy-prehash", y_setting(b"$gy$", 12, 32)),
+                ("7-64M", s7_setting(14, 32)),
+                ("7-p3-r1", s7_setting(8, 1, 3))]
     for name, s in big:
         c.append(("rn/" + name, [rt.obj_line(0, fill="r", seed=3)], rt.crypt_line("crypt_rn", 0, ph, s)))
         c.append(("ra/" + name, ["raobj 2 -1 0"], rt.crypt_line("crypt_ra", 2, ph, s)))
@@ -86,6 +94,7 @@ def parse_ev(ev):
 
 
 TOKENS = [None]
+TIER = ["quick"]
 
 
 def tokens_enabled():
@@ -136,12 +145,17 @@ def do_case(item):
     acc.count("corpus_calls")
     acc.count("requests_total", n)
     scen = [(k,) for k in range(1, n + 1)] + [(a, b) for a in range(1, n + 2) for b in range(a + 1, n + 3)]
+    if TIER[0] == "thorough" and n >= 2:
+        import random
+        tr = random.Random("%s/%s" % (name, n))
+        allt = [(a, b, c) for a in range(1, n + 2) for b in range(a + 1, n + 3) for c in range(b + 1, n + 4)]
+        scen += tr.sample(allt, min(len(allt), 60))
     for faults in scen:
         fl = "fault " + ",".join(str(x) for x in faults)
         lines = base_setup + setup0 + [fl, call, call] + tail
         res, end = w.run(lines, 300)
         acc.count("evaluations")
-        acc.count("single_faults" if len(faults) == 1 else "double_faults")
+        acc.count("single_faults" if len(faults) == 1 else ("double_faults" if len(faults) == 2 else "triple_faults"))
         where = "%s faults=%s" % (name, faults)
         if isinstance(end, Death):
             rt.death_violation(acc, PID, end, FL, lines[end.line], "faulted/" + name.split("/")[0], lines[:end.line])
@@ -235,6 +249,7 @@ def is_gs_os(call):
 def run(tier):
     run_ = common.Run(PID, tier, "fault_enumeration")
     rt.prepare([FL])
+    TIER[0] = tier
     items = corpus(tier)
     for acc in pool.pmap(do_case, items):
         run_.merge(acc)
@@ -249,6 +264,7 @@ def run(tier):
         "requests_in_unfaulted_traces": int(a.n.get("requests_total", 0)),
         "single_fault_runs": int(a.n.get("single_faults", 0)),
         "double_fault_runs": int(a.n.get("double_faults", 0)),
+        "triple_fault_runs_sampled": int(a.n.get("triple_faults", 0)),
         "faults_actually_injected": int(a.n.get("faults_injected", 0)),
         "distinct_request_traces": sorted("%s:%s" % t for t in a.sets.get("traces", ())),
         "flavour": FL + " + ledger",
